@@ -78,7 +78,9 @@ fn run_cell(cfg: &RunCfg, s: usize, m: u64, l: u64, declared: bool, expect: bool
     handler::set_plan(&req.path, req.plan.clone());
     // A declared-length upload that the client cuts short (sends fewer bytes than it
     // announced, then half-closes): nothing may be handed over as if it were the body.
-    let cut_short: Option<usize> = if declared && l > 0 && gen::ratio(1, 8) { Some(gen::pick(&[0usize, 1, (l / 2) as usize, (l - 1) as usize]).min((l - 1) as usize)) } else { None };
+    // (an undeclared-length body ends with the client's FIN; one that is cut by a RESET has
+    // not ended, it was aborted)
+    let cut_short: Option<usize> = if l > 0 && gen::ratio(1, 8) { Some(gen::pick(&[0usize, 1, (l / 2) as usize, (l - 1) as usize]).min((l - 1) as usize)) } else { None };
     let mut req = req;
     if cut_short.is_some() {
         req.expect = false;
@@ -91,7 +93,11 @@ fn run_cell(cfg: &RunCfg, s: usize, m: u64, l: u64, declared: bool, expect: bool
             gen::count("fault.upload_cut_short_by_fin");
             let body = reqs[0].body();
             crate::engine::server::Client::new(
-                vec![crate::engine::server::Op::Connect, crate::engine::server::Op::Send(reqs[0].head()), crate::engine::server::Op::Send(body[..k.min(body.len())].to_vec()), crate::engine::server::Op::Fin, crate::engine::server::Op::AwaitFinal(1)],
+                if declared {
+                    vec![crate::engine::server::Op::Connect, crate::engine::server::Op::Send(reqs[0].head()), crate::engine::server::Op::Send(body[..k.min(body.len())].to_vec()), crate::engine::server::Op::Fin, crate::engine::server::Op::AwaitFinal(1)]
+                } else {
+                    vec![crate::engine::server::Op::Connect, crate::engine::server::Op::Send(reqs[0].head()), crate::engine::server::Op::Send(body[..k.min(body.len())].to_vec()), crate::engine::server::Op::Pause(gen::below(12)), crate::engine::server::Op::Rst]
+                },
                 frag,
             )
         }
@@ -116,7 +122,7 @@ fn run_cell(cfg: &RunCfg, s: usize, m: u64, l: u64, declared: bool, expect: bool
     let calls = handler::calls();
     let at_eof = with(|w| w.client_at_eof(conn));
     if let Some(k) = cut_short {
-        let cell = format!("{cell}; the client sent only {k} of the {l} announced body bytes and half-closed");
+        let cell = format!("{cell}; the client sent only {k} of the {l} body bytes and {}", if declared { "half-closed" } else { "reset the connection" });
         if let Some(c) = calls.iter().find(|c| !c.pending) {
             return Outcome::fail("C09.body_intact", format!("{cell}: the handler was run with a body ({} bytes, kind {}) although the announced body never arrived completely", c.body.as_ref().map(|b| b.len()).unwrap_or(0), c.body_kind));
         }
